@@ -55,9 +55,10 @@ let rfields (r : rres) =
   | RRet o ->
     let live = string_of_z o.r_live in
     (match o.r_parsed with
-     | Some (d, pb) ->
-       (* result and message are those of the parser call: not decided here *)
-       Printf.sprintf "? ? %s 1 %s %s ? ?" (string_of_z o.r_reads) (string_of_z d) (hex_of_bytes pb), live
+     | Some ((d, pb), _) ->
+       (* result, message and whether the NUL is handed over in a second call are the
+          tokener's: not decided here *)
+       Printf.sprintf "? ? %s ? %s %s ? ?" (string_of_z o.r_reads) (string_of_z d) (hex_of_bytes pb), live
      | None ->
        Printf.sprintf "%s %s %s 0 - - ? ?" (match o.r_obj with JNull -> "NULL" | _ -> "TREE")
          (b01 (o.r_msg <> MNone)) (string_of_z o.r_reads), live)
@@ -67,7 +68,7 @@ let oflags_str (fl : oflags) =
   ^ (if fl.o_creat then "C" else "") ^ (if fl.o_trunc then "T" else "")
   ^ (if fl.o_append then "A" else "") ^ (if fl.o_excl then "X" else "")
 
-let stand_in _ _ = None
+let stand_in : tokener = { tk_first = (fun _ _ -> PError); tk_nul = (fun _ _ -> None) }
 let app_ok _ _ = true
 
 let wpad sched ser = sched @ [Short (z_of_int (List.length ser + 1))]
